@@ -397,6 +397,8 @@ func runC20(r *Run) {
 	rt := r.Rule("C20.retain", "in the hot closure a slice field of a retained object (message, destination value, pooled object) is only ever assigned a value derived from its own previous value (reslice without capacity clamp, append onto it): the warm backing array and its capacity survive every operation", 5)
 	checkRetained(r, rt, hot)
 	rt.Done()
+	// the attribute list narrowed for a callback is restored on every exit: a list left narrowed has lost capacity and the next decode allocates (shared with C07)
+	r.Borrow("C07", map[string]string{"C07.restore": "C20.restore"})
 }
 
 // retainedBase: the append base derives from storage retained across calls (a field of the message,
@@ -701,8 +703,41 @@ func checkRetained(r *Run, rc *RuleCtx, hot []*ssa.Function) {
 			case !der:
 				class = "replaced by " + exprCanon(st.Val)
 			}
+			// derived from itself but cut from the front: the bytes before the new start are out of reach for good
+			frontCut := false
+			if der && !clamp {
+				v := st.Val
+				for i := 0; i < 8; i++ {
+					if ct, isCT := v.(*ssa.ChangeType); isCT {
+						v = ct.X
+						continue
+					}
+					sl, isSl := v.(*ssa.Slice)
+					if !isSl {
+						break
+					}
+					if sl.Low != nil {
+						if c, isC := constInt(sl.Low); !isC || c != 0 {
+							frontCut = true
+						}
+					}
+					v = sl.X
+				}
+				if frontCut && fv != nil {
+					// a temporary narrowing that the function undoes on every exit (ForEach around its callback)
+					if viol, _ := newSaveRestore(p, fn, fv).run(false); len(viol) == 0 {
+						frontCut = false
+						class = "narrowed and restored on every exit"
+					}
+				}
+				if frontCut {
+					class = "cut from the front"
+				}
+			}
 			rc.Instance(fnName(fn)+"|"+what+"|"+class, true, map[string]interface{}{"fn": fnName(fn), "store": what, "class": class})
 			switch {
+			case frontCut:
+				rc.Violation(fn, instrPos(st), what+" = "+exprCanon(st.Val), "a reused buffer is resliced from a non-zero start: the capacity in front of the new start is lost for good, so the next value that needs the full size (an IPv6 address after an IPv4-mapped one) reallocates although the destination was warm")
 			case der && clamp:
 				rc.Violation(fn, instrPos(st), what+" = "+exprCanon(st.Val), "a three-index reslice clamps the capacity of a reused buffer: the next larger value (e.g. an IPv6 address after an IPv4 one) has to reallocate although the destination was warm")
 			case !der:
